@@ -440,12 +440,12 @@ func TestRobust(t *testing.T) {
 		rigs := []*rig{newRig(ctx, "", false), newRigLimit(ctx, "", false, 1e9)}
 		lx := verifhooks.NewLexer(0)
 		err := vh.ReadCases(path, func(idx int, raw []byte) error {
-			if (idx+int(seed))%every != 0 {
-				return nil
-			}
 			var c lcase
 			if err := json.Unmarshal(raw, &c); err != nil {
 				return err
+			}
+			if (idx+int(seed))%every != 0 && len(c.In) > 2 { // the shortest lines always run: their pumped forms are whole classes of input
+				return nil
 			}
 			rng := vh.NewRng(seed, idx)
 			lines := []string{concretise(c.In, rng)}
@@ -458,6 +458,18 @@ func TestRobust(t *testing.T) {
 				if err := robustOne(ctx, res, rigs, lx, &c, idx+li, line); err != nil {
 					return err
 				}
+			}
+			if len(c.In) <= 2 {
+				// and without chance: the first token at every length, '!' as every odd byte, in every datagram shape, with and
+				// without bad-line logging (idx+k runs through the 3 shapes x 2 rigs)
+				for _, line := range pumpFirst(c.In) {
+					for k := 0; k < 6; k++ {
+						if err := robustOne(ctx, res, rigs, lx, &c, idx+k, line); err != nil {
+							return err
+						}
+					}
+				}
+				res.Hit("first-token-pumped-systematically")
 			}
 			return nil
 		})
@@ -488,6 +500,38 @@ func pump(toks []string, rng *vh.Rng) string {
 		sb.WriteString(strings.Repeat(t, n))
 	}
 	return sb.String()
+}
+
+// pumpFirst: the first token repeated pumpLens[i] times, the rest once; a '!' anywhere stands for each odd byte in turn
+func pumpFirst(toks []string) []string {
+	odds := [][]byte{{'!'}}
+	for _, t := range toks {
+		if t == "!" {
+			odds = nil
+			for _, b := range oddBytes {
+				odds = append(odds, []byte{b})
+			}
+			break
+		}
+	}
+	var out []string
+	for _, ob := range odds {
+		for _, n := range pumpLens {
+			var sb strings.Builder
+			for i, t := range toks {
+				if t == "!" {
+					t = string(ob)
+				}
+				if i == 0 {
+					sb.WriteString(strings.Repeat(t, n))
+				} else {
+					sb.WriteString(t)
+				}
+			}
+			out = append(out, sb.String())
+		}
+	}
+	return out
 }
 
 func clip(s string) string {
